@@ -2,7 +2,10 @@
 
 package blocklist
 
-import "sort"
+import (
+	"reflect"
+	"sort"
+)
 
 // VerifC18Snapshot returns sorted copies of the three lists exactly as they
 // are held in memory: plain entries (keys of m), wildcard entries rendered as
@@ -31,13 +34,32 @@ func (b *BlockList) VerifC18Snapshot() (exact, wild, white []string) {
 // VerifC18PersistState waits for any persist() in flight (persistence is
 // synchronous inside the mutating call, serialised by saveMu) and returns the
 // newest snapshot version handed out and the newest version that reached disk.
-// Read-only.
+// Read-only. The two counters are read through reflection so that the hook
+// keeps compiling whether they are plain integers or sync/atomic values.
 func (b *BlockList) VerifC18PersistState() (version, lastPersisted uint64) {
+	rv := reflect.ValueOf(b).Elem()
 	b.saveMu.Lock()
-	lastPersisted = b.lastPersisted
+	lastPersisted = verifC18Uint(rv.FieldByName("lastPersisted"))
 	b.saveMu.Unlock()
 	b.mu.RLock()
-	version = b.version
+	version = verifC18Uint(rv.FieldByName("version"))
 	b.mu.RUnlock()
 	return version, lastPersisted
+}
+
+func verifC18Uint(v reflect.Value) uint64 {
+	if !v.IsValid() {
+		return 0
+	}
+	switch v.Kind() {
+	case reflect.Uint, reflect.Uint32, reflect.Uint64:
+		return v.Uint()
+	case reflect.Int, reflect.Int32, reflect.Int64:
+		return uint64(v.Int())
+	case reflect.Struct: // sync/atomic.Uint64 and friends keep the value in field "v"
+		if f := v.FieldByName("v"); f.IsValid() {
+			return verifC18Uint(f)
+		}
+	}
+	return 0
 }
